@@ -31,6 +31,9 @@ fn hdr(abs: bool, mnems: &[&str], query: bool) -> Header {
 }
 
 const N_OPS: usize = 12;
+/// operations only used by the random part: queue queries carrying a surplus parameter (must be
+/// rejected without touching the queue)
+const N_OPS_RANDOM: usize = 14;
 const OP_NAMES: [&str; N_OPS] = [
     "syntax error", "undefined header", "parameter count", "data type", "out of range", "handler custom error",
     "handler standard error", "SYST:ERR?", "SYST:ERR:NEXT?", "SYST:ERR:COUN?", "valid command", "valid query",
@@ -70,6 +73,8 @@ fn op_unit(op: usize) -> (Unit, UnitKind) {
         8 => (Unit::new(hdr(true, &["SYSTem", "ERRor", "NEXT"], true), vec![]), UnitKind::Normal),
         9 => (Unit::new(hdr(true, &["SYST", "ERR", "COUN"], true), vec![]), UnitKind::Normal),
         10 => (Unit::new(hdr(false, &["*RST"], false), vec![]), UnitKind::Normal),
+        12 => (Unit::new(hdr(true, &["SYST", "ERR"], true), vec![Lit::Dec("1".into())]), UnitKind::Normal),
+        13 => (Unit::new(hdr(true, &["SYST", "ERR", "COUN"], true), vec![s("x")]), UnitKind::Normal),
         _ => (Unit::new(hdr(true, &["A"], true), vec![]), UnitKind::Normal),
     }
 }
@@ -187,7 +192,8 @@ fn random_prop(model: &Model, tape: &[u32], st: &mut Stats) -> Result<(), String
     let mut interleaved = false;
     let mut ops_done = 0;
     while ops_done < n_ops {
-        let op = t.weighted(&[2, 2, 2, 2, 2, 2, 2, 3, 3, 3, 1, 1]);
+        let op = t.weighted(&[2, 2, 2, 2, 2, 2, 2, 3, 3, 3, 1, 1, 1, 1]);
+        debug_assert!(op < N_OPS_RANDOM);
         let (mut u, k) = op_unit(op);
         // relative forms: after SYST:ERR:NEXT? the queue queries can be addressed relative
         if let Some(prev) = cur.last() {
